@@ -151,7 +151,7 @@ def _build(tier):
         if proofs_built:     # every proof module in one environment: a name declared twice anywhere is an error here
             f.write("".join("import Proofs.%s\n" % x[:-5] for x in sorted(os.listdir(os.path.join(LEAN, "Proofs"))) if x.endswith(".lean")))
         if gen.get("built"):
-            f.write("import Gen.Lifted\n")
+            f.write("import Gen.Lifted\n" + ("import Gen.StorageEq\n" if os.path.exists(os.path.join(LEAN, "Gen", "StorageEq.lean")) else ""))
         f.write("".join("#print axioms %s\n" % n for n in built_names))
         if gen.get("built"):
             f.write("".join("#print axioms Traph.Gen.%s\n" % n for n in gen["names"]))
@@ -198,14 +198,22 @@ def build_gen(py):
     except Exception:
         gen["log"] = "gen_helpers failed:\n" + out[-1200:]
         return gen
+    rc2, out2 = sh([py, os.path.join(ROOT, "gen", "gen_storage.py")])
+    try:
+        gen["status"].update(json.loads(out2.strip().split("\n")[-1]))
+    except Exception:
+        gen["log"] = "gen_storage failed:\n" + out2[-1200:]
+        return gen
     rc, out = sh(["lake", "build", "Gen"], cwd=LEAN)
     gen["built"] = rc == 0
     if rc != 0:
         gen["log"] = "\n".join(l for l in out.split("\n") if not l.startswith(("info:", "ℹ", "✔")))[-2500:]
         return gen
-    for f in ("HelpersEq.lean", "Lifted.lean"):
+    for f in ("HelpersEq.lean", "Lifted.lean", "StorageEq.lean"):
+        if not os.path.exists(os.path.join(LEAN, "Gen", f)):
+            continue
         text = strip_comments(open(os.path.join(LEAN, "Gen", f)).read())
-        gen["names"] += re.findall(r"^theorem\s+((?:C\d\d_source\w*)|(?:\w+_eq)|(?:chunks_iter_zero))\b", text, flags=re.M)
+        gen["names"] += re.findall(r"^theorem\s+((?:C\d\d_source\w*)|(?:[\w.]+_eq)|(?:chunks_iter_zero))(?=[\s({\[:])", text, flags=re.M)
     return gen
 
 
